@@ -181,4 +181,25 @@ theorem no_exec_loop (inv : Expr) : ∀ s s', ¬ Exec (.while (.bool true) inv .
     | whileT _ _ _ _ ih2 => intro e; exact ih2 e
   exact key _ _ _ h rfl
 
+/-! ### the statement `imp.vcg` / `vcg_norm` / `vcg_solve` return -/
+
+/-- `A₁ ⟶ … ⟶ Aₙ ⟶ C` -/
+def chain (as : List Prop) (concl : Prop) : Prop := as.foldr (fun a acc => a → acc) concl
+
+theorem chain_iff (as : List Prop) (concl : Prop) : chain as concl ↔ ((∀ a ∈ as, a) → concl) := by
+  induction as with
+  | nil => simp [chain]
+  | cons a t ih =>
+    simp only [chain, List.foldr] at ih ⊢
+    constructor
+    · intro h hall; exact ih.mp (h (hall a (List.mem_cons_self ..))) (fun x hx => hall x (List.mem_cons_of_mem _ hx))
+    · intro h ha; exact ih.mpr (fun hall => h (by intro x hx; rcases List.mem_cons.mp hx with rfl | hx; exact ha; exact hall x hx))
+
+theorem valid_triple (p q : Expr) (c : Com) (hw : wsCom c = true) (hv : ∀ v ∈ vcsH p c q, valid v) :
+    Gen.Valid (bval p) (embed c) (bval q) := by
+  intro s s2 hp hsem
+  have hex := (sem_to_exec c (ws_of_wsCom c hw) s s2) hsem
+  exact wp_sound c [p] q (allValid_getVcs _ hv) s s2 hex
+    (holds_mkVc ((allValid_getVcs _ hv) _ (mkVc_mem_getVcs c p q) s) hp)
+
 end Holpy.C20
